@@ -123,6 +123,32 @@ impl<'gc> DynamicRootSet<'gc> {
     }
 }
 
+// Verification hooks: read-only views of the slot table (never used by the crate itself).
+#[cfg(gc_arena_verif)]
+impl<'gc> DynamicRootSet<'gc> {
+    /// The slot table, one entry per slot in index order:
+    /// `(occupied, root address if occupied / next_free if vacant, ref_count (0 if vacant))`.
+    pub fn verif_slots(&self) -> alloc::vec::Vec<(bool, usize, usize)> {
+        self.0
+            .slots
+            .borrow()
+            .slots
+            .iter()
+            .map(|slot| match slot {
+                Slot::Vacant { next_free } => (false, *next_free, 0),
+                Slot::Occupied { root, ref_count } => {
+                    (true, Gc::as_ptr(*root) as usize, *ref_count)
+                }
+            })
+            .collect()
+    }
+
+    /// Head of the free list (`usize::MAX` when it is empty).
+    pub fn verif_next_free(&self) -> usize {
+        self.0.slots.borrow().next_free
+    }
+}
+
 /// Handle to a `Gc` pointer held inside a [`DynamicRootSet`] which is `'static` and can be held
 /// outside of the arena.
 pub struct DynamicRoot<R: for<'gc> Rootable<'gc>> {
